@@ -443,6 +443,10 @@ class FakeSocket:
         self.sent = self.sent + data if len(self.sent) else data
         if self.server is not None:
             self.server.on_client_bytes(data)
+        if self.net.yield_on_send:
+            # preemption point: the bytes are out; every other runnable thread (e.g. the reading loop seeing an immediate
+            # reply) may run before the sender continues
+            self.k.yield_now()
         return len(data)
 
     def sendall(self, data):
@@ -547,6 +551,7 @@ class Net:
         self.addrinfo = addrinfo
         self.tls = tls
         self.nconnected = 0
+        self.yield_on_send = False
 
     def connect_outcome(self, sock, addr):
         return self.outcomes.get(sock.idx, "accept")
